@@ -453,6 +453,65 @@ pub fn run_bigfile(out: &mut Out, rng: &mut Rng, only: Option<&str>, all: bool) 
     }
 }
 
+/// Specification -> implementation: every complete reader script TLC explored in MCStreamReplay
+/// is followed by a real reader against the real hash_stream; the outcome must be the one
+/// Stream.tla assigns and the loop must make exactly one read call per answer.
+pub fn replay(path: &str, out: &mut Out) -> u64 {
+    use serde_json::Value;
+    let text = std::fs::read_to_string(path).expect("replay file");
+    let (mut bad, mut n) = (0u64, 0u64);
+    for (ln, line) in text.lines().enumerate() {
+        if line.trim().is_empty() {
+            continue;
+        }
+        let j: Value = serde_json::from_str(line).expect("replay line is JSON");
+        let v = variant(j["v"].as_str().unwrap());
+        let mut content = Vec::new();
+        let mut script = Vec::new();
+        for a in j["script"].as_array().unwrap() {
+            match a["k"].as_str().unwrap() {
+                "ok" => {
+                    let d: Vec<u8> = a["d"].as_array().unwrap().iter().map(|x| x.as_u64().unwrap() as u8).collect();
+                    script.push(Step::Deliver(d.len()));
+                    content.extend_from_slice(&d);
+                }
+                "lie" => script.push(Step::Lie(a["n"].as_u64().unwrap() as usize)),
+                "int" => script.push(Step::Interrupt),
+                "err" => script.push(Step::Error(match a["e"].as_str().unwrap() {
+                    "UnexpectedEof" => ErrorKind::UnexpectedEof,
+                    _ => ErrorKind::Other,
+                })),
+                "eof" => script.push(Step::Eof),
+                _ => script.push(Step::Misreport(1)),
+            }
+        }
+        let steps = script.len();
+        let total = content.len();
+        // a Deliver step on exhausted content would answer EOF: keep one spare byte so that it cannot happen
+        content.push(0);
+        let mut rd = ScriptReader { script, pos: 0, data: Content::Explicit(content), off: 0, log: Vec::new() };
+        let o = v.hash_stream(&mut rd);
+        let got: Value = serde_json::from_str(&outcome_json(&o)).unwrap();
+        let mut why: Vec<String> = Vec::new();
+        if got != j["outcome"] {
+            why.push(format!("outcome differs: {}", got));
+        }
+        if rd.pos != steps {
+            why.push(format!("{} read calls for a script of {} answers", rd.pos, steps));
+        }
+        if rd.off != total {
+            why.push("the reader was asked for a different amount of data".into());
+        }
+        n += 1;
+        if !why.is_empty() {
+            bad += 1;
+            out.emit(Ev::new("replay_mismatch").num("line", ln as i64 + 1).str("why", &why.join("; ")).raw("step", line));
+        }
+    }
+    out.emit(Ev::new("replay_done").num("steps", n as i64).num("mismatches", bad as i64));
+    bad
+}
+
 /// C17: readers that claim bytes they never wrote (within the buffer): the library then hashes
 /// what its buffer holds - zeros, or what earlier reads left there - never anything else.
 fn run_lies(out: &mut Out, rng: &mut Rng, v: &dyn Var) {
